@@ -6,12 +6,14 @@ Inductive outcome (A : Type) : Type :=
 | Err (m : bstr)   (* a Go panic that a recover turns into an error value (class tag in [m]) *)
 | Crash (m : bstr) (* a Go panic (or scanner-goroutine crash) that reaches the caller *)
 | Diverge          (* a Go loop that never exits *)
-| OutOfFuel.       (* the model's own recursion budget ran out *)
+| OutOfFuel        (* the model's own recursion budget ran out *)
+| OutOfModel.      (* the computation left the modelled domain (inexact float, unmodelled library call) *)
 Arguments Ok {A} v.
 Arguments Err {A} m.
 Arguments Crash {A} m.
 Arguments Diverge {A}.
 Arguments OutOfFuel {A}.
+Arguments OutOfModel {A}.
 
 Definition bind {A B} (x : outcome A) (f : A -> outcome B) : outcome B :=
   match x with
@@ -20,6 +22,7 @@ Definition bind {A B} (x : outcome A) (f : A -> outcome B) : outcome B :=
   | Crash m => Crash m
   | Diverge => Diverge
   | OutOfFuel => OutOfFuel
+  | OutOfModel => OutOfModel
   end.
 Notation "x <- e ;; f" := (bind e (fun x => f)) (at level 61, e at next level, right associativity).
 Notation "' p <- e ;; f" := (bind e (fun p => f)) (at level 61, p pattern, e at next level, right associativity).
